@@ -12,7 +12,7 @@
 """
 import ast
 
-from ..core.astutil import norm, ParentMap
+from ..core.astutil import where_unpack, norm, ParentMap
 from ..core.cfg import CFG
 from ..core.loader import walk_no_nested
 from ..core.pattern import Matcher
@@ -180,7 +180,7 @@ class SignEval:
                 return v
             if q in ('numpy.triu', 'numpy.tril') and e.args:
                 return self.ev(e.args[0], env)
-            if q in ('numpy.where', 'numpy.nonzero') and len(e.args) == 1:
+            if q in ('numpy.where', 'numpy.nonzero', 'numpy.flatnonzero') and len(e.args) == 1:
                 v = self.ev(e.args[0], env)
                 if v['k'] == 'mask':
                     return {'k': 'idx', 'of': v['of'], 'cls': v['cls']}
@@ -375,8 +375,7 @@ def _null_model(prog, rep, eng, f, und):
         rep.ob('D.dealt-vector-covers-support-once', f, wv, (tri if und else not tri) and W in acur,
                'undirected: weights must be taken once per connection (upper triangle); directed: from every cell', line=wv.lineno)
         # index arrays: Lij from the same triangle form of the rewired support
-        lij = [s for s in body_nodes if isinstance(s, ast.Assign) and len(s.targets) == 1 and isinstance(s.targets[0], ast.Tuple)
-               and len(s.targets[0].elts) == 1 and isinstance(s.value, ast.Call) and norm(s.value.func) == 'np.where' and '.flat' in norm(s.value)]
+        lij = [s for s in body_nodes if where_unpack(s) is not None and norm(s.value.func).endswith('flatnonzero')]     # flat positions
         tri2 = bool(lij) and any(isinstance(n, ast.Call) and norm(n.func) == 'np.triu' for n in ast.walk(lij[0].value))
         rep.ob('D.target-cells-cover-support-once', f, lij[0] if lij else 'Lij, = np.where(A_rcur.flat)', bool(lij) and (tri2 if und else not tri2),
                'flat indices of the cells to fill must list each rewired connection once', line=sloop.lineno)
@@ -393,7 +392,7 @@ def _null_model(prog, rep, eng, f, und):
                    'weights dealt in a round must be removed from the vector by exactly the round\'s indices', line=sloop.lineno)
             # cell indices removed by Oind[R]
             if lij:
-                L = lij[0].targets[0].elts[0].id
+                L = where_unpack(lij[0])[0].id
                 okl = L in dels
                 if okl:
                     a1 = dels[L].value.args[1]
